@@ -413,4 +413,235 @@ theorem sumPV_nums (qs : List Rat) : sumPV (qs.map PV.num) = some qs.sum := by
   rw [sumPV_go]
   simp [Rat.zero_add]
 
+/-! ### well-formedness of the key tables (decidable; discharged for the generated tables by `decide`) -/
+
+/-- the keys the source level reads for a repairable / non-repairable source -/
+def Tables.srcKeysFor (tb : Tables) (rep : Bool) : List String :=
+  [tb.srcErs, tb.srcEpr, tb.srcDur, tb.srcMulti] ++ (if rep then [tb.srcRd, tb.srcRc] else [])
+
+def Tables.prefixOf (tb : Tables) (rep : Bool) : String := if rep then tb.repPrefix else tb.nonRepPrefix
+
+/-- every propagating parameter uses the same key at every level where it may be specified -/
+abbrev Tables.SameKeys (tb : Tables) : Prop :=
+  (∀ k ∈ tb.globalPlain, k ∈ tb.typePlain ∧ k ∈ tb.sitePlain ∧ k ∈ tb.eqCleanPlain) ∧
+  (∀ k ∈ tb.typePlain, k ∈ tb.globalPlain) ∧ (∀ k ∈ tb.sitePlain, k ∈ tb.globalPlain) ∧
+  (∀ k ∈ tb.eqCleanPlain, k ∈ tb.globalPlain) ∧
+  (∀ p ∈ tb.allMeth, p ∈ tb.typeMeth ∧ p ∈ tb.siteMeth) ∧
+  (∀ p ∈ tb.typeMeth, p ∈ tb.allMeth) ∧ (∀ p ∈ tb.siteMeth, p ∈ tb.allMeth) ∧
+  (∀ p ∈ tb.groupMeth, p ∈ tb.eqCleanMeth) ∧ (∀ p ∈ tb.eqCleanMeth, p ∈ tb.groupMeth)
+
+/-- the scaled entries are exactly the two production rates resp. survey time and cost, listed once -/
+abbrev Tables.ScaleOK (tb : Tables) : Prop :=
+  tb.scalePlain.Nodup ∧ tb.scaleMeth.Nodup ∧
+  (∀ k ∈ tb.scalePlain, k = tb.eqRepEpr ∨ k = tb.eqNonRepEpr) ∧
+  tb.eqRepEpr ∈ tb.scalePlain ∧ tb.eqNonRepEpr ∈ tb.scalePlain ∧
+  tb.eqRepEpr ∈ tb.globalPlain ∧ tb.eqNonRepEpr ∈ tb.globalPlain ∧
+  tb.eqRepEpr ≠ tb.eqNonRepEpr ∧
+  tb.siteRepEpr = tb.eqRepEpr ∧ tb.siteNonRepEpr = tb.eqNonRepEpr ∧
+  tb.eqRepEpr = tb.repPrefix ++ tb.srcEpr ∧ tb.eqNonRepEpr = tb.nonRepPrefix ++ tb.srcEpr ∧
+  (∀ p ∈ tb.scaleMeth, p = tb.eqTimeKey ∨ p = tb.eqCostKey) ∧
+  tb.eqTimeKey ∈ tb.scaleMeth ∧ tb.eqCostKey ∈ tb.scaleMeth ∧
+  (∀ rep ∈ [true, false], ∀ sk ∈ tb.srcKeysFor rep,
+      (tb.prefixOf rep ++ sk ∈ tb.scalePlain ↔ sk = tb.srcEpr))
+
+/-- what is popped where, and that coverage is neither scaled nor popped before the source -/
+abbrev Tables.PopsOK (tb : Tables) : Prop :=
+  tb.freqKey ∈ tb.globalMeth ∧ tb.monthsKey ∈ tb.globalMeth ∧ tb.yearsKey ∈ tb.globalMeth ∧
+  tb.deployKey = tb.siteDeploy ∧ tb.siteDeploy ∉ tb.globalMeth ∧
+  tb.eqTimeKey ∈ tb.globalMeth ∧ tb.eqCostKey ∈ tb.globalMeth ∧
+  tb.eqTimeKey ∈ tb.groupMeth ∧ tb.eqCostKey ∈ tb.groupMeth ∧
+  tb.srcSpatial ∈ tb.globalMeth ∧ tb.srcTemporal ∈ tb.globalMeth ∧
+  tb.srcSpatial ∈ tb.sourceMeth ∧ tb.srcTemporal ∈ tb.sourceMeth ∧
+  tb.srcSpatial ∉ tb.scaleMeth ∧ tb.srcTemporal ∉ tb.scaleMeth
+
+/-- the un-prefixing rule maps each prefixed key to the key the source reads, and to nothing else -/
+abbrev Tables.UnprefixOK (tb : Tables) : Prop :=
+  ∀ rep ∈ [true, false], ∀ sk ∈ tb.srcKeysFor rep,
+    (tb.prefixOf rep ++ sk) ∈ tb.globalPlain ∧
+    hasInfix (tb.prefixOf rep) (tb.prefixOf rep ++ sk) = true ∧
+    removeAll (tb.prefixOf rep) (tb.prefixOf rep ++ sk) = sk ∧
+    (∀ k' ∈ tb.globalPlain, hasInfix (tb.prefixOf rep) k' = true →
+        removeAll (tb.prefixOf rep) k' = sk → k' = tb.prefixOf rep ++ sk) ∧
+    (∀ k' ∈ tb.globalPlain, hasInfix (tb.prefixOf rep) k' = true →
+        removeAll (tb.prefixOf rep) k' ≠ tb.prefixOf rep ++ sk)
+
+abbrev Tables.WF (tb : Tables) : Prop := tb.SameKeys ∧ tb.ScaleOK ∧ tb.PopsOK ∧ tb.UnprefixOK
+
+/-! ### the dictionaries along one chain site type → site → group → component -/
+
+/-- what a site type row says about a column (`none` without a site type file) -/
+def typeGet (typeRow : Option Row) (c : String) : Option PV := typeRow.bind (fun t => t.get? c)
+
+/-- the dictionaries an equipment group works with (after its own overrides) -/
+def groupCtx (tb : Tables) (methods : List String) (G : Dict String) (Gm : Dict MKey)
+    (typeRow : Option Row) (siteRow eqRow : Row) (nG : Nat) : Dict String × Dict MKey :=
+  groupDicts tb methods eqRow
+    (scaleKeys tb.scalePlain nG (siteDicts tb methods G Gm typeRow siteRow).1)
+    (scaleKeys (methKeys methods tb.scaleMeth) nG (siteDicts tb methods G Gm typeRow siteRow).2)
+
+/-- the dictionary a component of that group hands to its sources -/
+def compCtx (tb : Tables) (methods : List String) (G : Dict String) (Gm : Dict MKey)
+    (typeRow : Option Row) (siteRow eqRow : Row) (nG : Nat) : Dict String :=
+  compDict tb (totalComponents tb eqRow) (groupCtx tb methods G Gm typeRow siteRow eqRow nG).1
+
+theorem get_sitePlain (tb : Tables) (h : tb.SameKeys) (methods : List String) (G : Dict String)
+    (Gm : Dict MKey) (typeRow : Option Row) (siteRow : Row) (k : String) (hk : k ∈ tb.globalPlain) :
+    (siteDicts tb methods G Gm typeRow siteRow).1.get k
+      = resolve [typeGet typeRow k, siteRow.get? k] (G.get k) := by
+  have hT := (h.1 k hk).1
+  have hS := (h.1 k hk).2.1
+  unfold siteDicts
+  simp only [resolve_cons, resolve_nil]
+  rw [get_updFrom]
+  simp only [hS, if_true, id]
+  cases typeRow with
+  | none => simp [typeGet, get_globalPlain, hk]
+  | some t => simp [typeGet, get_updFrom, hT, get_globalPlain, hk]
+
+theorem keys_sitePlain (tb : Tables) (h : tb.SameKeys) (methods : List String) (G : Dict String)
+    (Gm : Dict MKey) (typeRow : Option Row) (siteRow : Row) (k : String) :
+    k ∈ (siteDicts tb methods G Gm typeRow siteRow).1.keys ↔ k ∈ tb.globalPlain := by
+  unfold siteDicts
+  constructor
+  · intro hk
+    rcases keys_updFrom_sub _ _ _ _ _ hk with h1 | h1
+    · exact h.2.2.1 k h1
+    · cases typeRow with
+      | none => simpa [keys_globalPlain] using h1
+      | some t =>
+        rcases keys_updFrom_sub _ _ _ _ _ h1 with h2 | h2
+        · exact h.2.1 k h2
+        · simpa [keys_globalPlain] using h2
+  · intro hk
+    apply keys_updFrom_mono
+    cases typeRow with
+    | none => simpa [keys_globalPlain] using hk
+    | some t =>
+      apply keys_updFrom_mono
+      simpa [keys_globalPlain] using hk
+
+theorem keys_groupPlain (tb : Tables) (h : tb.SameKeys) (methods : List String) (G : Dict String)
+    (Gm : Dict MKey) (typeRow : Option Row) (siteRow eqRow : Row) (nG : Nat) (k : String) :
+    k ∈ (groupCtx tb methods G Gm typeRow siteRow eqRow nG).1.keys ↔ k ∈ tb.globalPlain := by
+  unfold groupCtx groupDicts
+  simp only
+  constructor
+  · intro hk
+    rcases keys_updFrom_sub _ _ _ _ _ hk with h1 | h1
+    · rw [keys_scaleKeys] at h1; exact (keys_sitePlain tb h methods G Gm typeRow siteRow k).mp h1
+    · rw [keys_scaleKeys] at h1; exact (keys_sitePlain tb h methods G Gm typeRow siteRow k).mp h1
+  · intro hk
+    apply keys_updFrom_mono
+    rw [keys_scaleKeys]
+    exact (keys_sitePlain tb h methods G Gm typeRow siteRow k).mpr hk
+
+theorem get_groupPlain (tb : Tables) (h : tb.SameKeys) (methods : List String) (G : Dict String)
+    (Gm : Dict MKey) (typeRow : Option Row) (siteRow eqRow : Row) (nG : Nat) (k : String)
+    (hk : k ∈ tb.globalPlain) :
+    (groupCtx tb methods G Gm typeRow siteRow eqRow nG).1.get k
+      = resolve [eqRow.get? k]
+          (if k ∈ tb.scalePlain
+            then (resolve [typeGet typeRow k, siteRow.get? k] (G.get k)).divNat nG
+            else resolve [typeGet typeRow k, siteRow.get? k] (G.get k)) := by
+  unfold groupCtx groupDicts
+  simp only [resolve_cons, resolve_nil]
+  rw [get_updFrom]
+  have hmem : k ∈ (scaleKeys tb.scalePlain nG (siteDicts tb methods G Gm typeRow siteRow).1).keys := by
+    rw [keys_scaleKeys]; exact (keys_sitePlain tb h methods G Gm typeRow siteRow k).mpr hk
+  simp only [hmem, if_true, id]
+  rw [get_scaleKeys, get_sitePlain tb h methods G Gm typeRow siteRow k hk]
+  simp only [resolve_cons, resolve_nil]
+
+theorem keys_compCtx (tb : Tables) (h : tb.SameKeys) (hs : tb.ScaleOK) (methods : List String)
+    (G : Dict String) (Gm : Dict MKey) (typeRow : Option Row) (siteRow eqRow : Row) (nG : Nat)
+    (k : String) :
+    k ∈ (compCtx tb methods G Gm typeRow siteRow eqRow nG).keys ↔ k ∈ tb.globalPlain := by
+  unfold compCtx
+  constructor
+  · intro hk
+    rcases keys_compDict_sub _ _ _ _ hk with h1 | h1 | h1
+    · rw [h1]; exact hs.2.2.2.2.2.1
+    · rw [h1]; exact hs.2.2.2.2.2.2.1
+    · exact (keys_groupPlain tb h methods G Gm typeRow siteRow eqRow nG k).mp h1
+  · intro hk
+    exact keys_compDict_mono _ _ _ _ ((keys_groupPlain tb h methods G Gm typeRow siteRow eqRow nG k).mpr hk)
+
+theorem mem_scalePlain_iff (tb : Tables) (hs : tb.ScaleOK) (k : String) :
+    k ∈ tb.scalePlain ↔ (k = tb.eqRepEpr ∨ k = tb.eqNonRepEpr) := by
+  constructor
+  · exact hs.2.2.1 k
+  · rintro (h | h)
+    · rw [h]; exact hs.2.2.2.1
+    · rw [h]; exact hs.2.2.2.2.1
+
+theorem get_compCtx (tb : Tables) (h : tb.SameKeys) (hs : tb.ScaleOK) (methods : List String)
+    (G : Dict String) (Gm : Dict MKey) (typeRow : Option Row) (siteRow eqRow : Row) (nG : Nat)
+    (k : String) (hk : k ∈ tb.globalPlain) :
+    (compCtx tb methods G Gm typeRow siteRow eqRow nG).get k
+      = if k ∈ tb.scalePlain
+          then (resolve [eqRow.get? k]
+                  ((resolve [typeGet typeRow k, siteRow.get? k] (G.get k)).divNat nG)).divPos
+                (totalComponents tb eqRow)
+          else resolve [typeGet typeRow k, siteRow.get? k, eqRow.get? k] (G.get k) := by
+  unfold compCtx
+  rw [get_compDict _ _ _ _ hs.2.2.2.2.2.2.2.1, get_groupPlain tb h methods G Gm typeRow siteRow eqRow nG k hk]
+  by_cases hsc : k ∈ tb.scalePlain
+  · have := (mem_scalePlain_iff tb hs k).mp hsc
+    simp only [hsc, if_true, this]
+  · have hn : ¬ (k = tb.eqRepEpr ∨ k = tb.eqNonRepEpr) :=
+      fun hh => hsc ((mem_scalePlain_iff tb hs k).mpr hh)
+    simp only [hsc, if_false, resolve_cons, resolve_nil]
+    rw [if_neg hn]
+
+/-- the global value of a method-specific parameter: from the method's parameter file, `True` for
+site deployment -/
+def globalMethVal (tb : Tables) (Gm : Dict MKey) (me p : String) : PV :=
+  if p ∈ tb.globalMeth then Gm.get (me, p) else PV.tru
+
+theorem get_siteMeth (tb : Tables) (h : tb.SameKeys) (methods : List String) (G : Dict String)
+    (Gm : Dict MKey) (typeRow : Option Row) (siteRow : Row) (me p : String)
+    (hme : me ∈ methods) (hp : p ∈ tb.allMeth) :
+    (siteDicts tb methods G Gm typeRow siteRow).2.get (me, p)
+      = resolve [typeGet typeRow (me ++ p), siteRow.get? (me ++ p)] (globalMethVal tb Gm me p) := by
+  have hT := (h.2.2.2.2.1 p hp).1
+  have hS := (h.2.2.2.2.1 p hp).2
+  have hg : (globalMeth tb methods Gm).get (me, p) = globalMethVal tb Gm me p := by
+    rw [get_globalMeth]
+    unfold globalMethVal
+    by_cases hpg : p ∈ tb.globalMeth
+    · simp [hme, hpg]
+    · have : p = tb.siteDeploy := by
+        have := hp
+        simp only [Tables.allMeth, List.mem_append, List.mem_singleton] at this
+        rcases this with h1 | h1
+        · exact absurd h1 hpg
+        · exact h1
+      simp [hme, hpg, this]
+  unfold siteDicts
+  simp only [resolve_cons, resolve_nil]
+  rw [get_updFrom]
+  have hmS : ((me, p) : MKey) ∈ methKeys methods tb.siteMeth := (mem_methKeys _ _ _ _).mpr ⟨hme, hS⟩
+  have hmT : ((me, p) : MKey) ∈ methKeys methods tb.typeMeth := (mem_methKeys _ _ _ _).mpr ⟨hme, hT⟩
+  simp only [hmS, if_true, MKey.col]
+  cases typeRow with
+  | none => simp [typeGet, hg]
+  | some t => simp [typeGet, get_updFrom, hmT, hg, MKey.col]
+
+theorem get_groupMeth (tb : Tables) (h : tb.SameKeys) (methods : List String) (G : Dict String)
+    (Gm : Dict MKey) (typeRow : Option Row) (siteRow eqRow : Row) (nG : Nat) (me p : String)
+    (hme : me ∈ methods) (hp : p ∈ tb.groupMeth) :
+    (groupCtx tb methods G Gm typeRow siteRow eqRow nG).2.get (me, p)
+      = resolve [eqRow.get? (me ++ p)]
+          (if p ∈ tb.scaleMeth
+            then (resolve [typeGet typeRow (me ++ p), siteRow.get? (me ++ p)] (globalMethVal tb Gm me p)).divNat nG
+            else resolve [typeGet typeRow (me ++ p), siteRow.get? (me ++ p)] (globalMethVal tb Gm me p)) := by
+  have hpa : p ∈ tb.allMeth := (List.mem_filter.mp hp).1
+  unfold groupCtx groupDicts
+  simp only [resolve_cons, resolve_nil]
+  rw [get_updFrom]
+  have hm : ((me, p) : MKey) ∈ methKeys methods tb.groupMeth := (mem_methKeys _ _ _ _).mpr ⟨hme, hp⟩
+  simp only [hm, if_true, MKey.col]
+  rw [get_scaleKeys, get_siteMeth tb h methods G Gm typeRow siteRow me p hme hpa]
+  simp only [resolve_cons, resolve_nil, mem_methKeys, hme, true_and]
+
 end LdarModel.Propagate
